@@ -6,7 +6,7 @@
 wt="$1"; out="$2"; log="$out/confirm.log"
 export CARGO_NET_OFFLINE=true
 cd "$wt" || exit 2
-demo_cmd=$(python3 -c "import json;print(json.load(open('$out/meta.json'))['demo_cmd'].replace('cp demo/','cp $out/demo/'))")
+demo_cmd=$(python3 -c "import json;print(json.load(open('$out/meta.json'))['demo_cmd'].replace(' demo/',' $out/demo/'))")
 {
 echo "== confirm $(basename "$out") at $(git rev-parse --short HEAD)"
 git checkout -q -- .   # tracked files back to the commit; the agent's untracked demo files stay in place
